@@ -338,7 +338,12 @@ class Result:
         "coverage": self.cov, "assumptions": self.assumptions,
         "wall_s": round(time.time() - self.t0, 2), "violations": len(self.violations),
     }
-    with open(os.path.join(EVIDENCE, self.prop + ".json"), "w") as fh:
+    evdir = EVIDENCE
+    if os.path.realpath(REPO) != "/repo":
+      # a run against another tree (seeded change / mutation trial) must not overwrite the committed evidence
+      evdir = os.path.join(BUILD, "evidence-other-tree")
+      os.makedirs(evdir, exist_ok=True)
+    with open(os.path.join(evdir, self.prop + ".json"), "w") as fh:
       json.dump(ev, fh, indent=1, sort_keys=True, default=str)
     for l in self.known_lines:
       print("KNOWN-FINDING: property=%s %s" % (self.prop, l))
